@@ -894,4 +894,9 @@ func ReplayMain(id, path string) int {
 }
 
 // QuietLogs discards the repository's logging (types' init installs a stdout handler).
-func QuietLogs() { log.Root().SetHandler(log.DiscardHandler()) }
+func QuietLogs() {
+	if os.Getenv("VERIF_LOGS") != "" { // debugging aid for replays: keep the repository's logging
+		return
+	}
+	log.Root().SetHandler(log.DiscardHandler())
+}
